@@ -36,7 +36,9 @@ from mashumaro.core.meta.helpers import (
     get_class_that_defines_method,
     get_function_arg_annotation,
     get_literal_values,
+    get_type_origin,
     get_type_var_default,
+    is_annotated,
     is_final,
     is_generic,
     is_literal,
@@ -197,10 +199,22 @@ class UnionUnpackerBuilder(AbstractUnpackerBuilder):
             unpacker_block = CodeLines()
             if isinstance(unpacker, TypeMatchEligibleExpression):
                 do_try = False
+                match_type = type_arg
+                while True:
+                    if is_annotated(match_type):
+                        match_type = get_type_origin(match_type)
+                    elif is_new_type(match_type):
+                        match_type = match_type.__supertype__
+                    else:
+                        break
+                match_type_name = clean_id(type_name(match_type))
+                spec.builder.ensure_object_imported(
+                    match_type, match_type_name
+                )
                 if type_match_statements > 1:
-                    condition = f"__value_type is {type_arg.__name__}"
+                    condition = f"__value_type is {match_type_name}"
                 else:
-                    condition = f"type(value) is {type_arg.__name__}"
+                    condition = f"type(value) is {match_type_name}"
                 if (condition, unpacker) in unpackers:  # pragma: no cover
                     # we shouldn't be here because condition is always unique
                     continue
